@@ -148,8 +148,15 @@ func c07Subset(r *hx.Rand, n int, out *hx.Out, _ []string) {
 		}
 		first := zooRun(decs[0], doc, zooOpts{base: base})
 		if first.verdict != "ok" {
-			// not a grammatical document of the smaller language (negative or unsupported seed): outside the quantifier
-			out.Emit(hx.Case{Kind: "K/C07/skip", Impl: first.verdict, Class: kind + " rejected by " + decs[0], Desc: kind})
+			if strings.HasSuffix(kind, "-seed") {
+				// not a grammatical document of the smaller language (negative or unsupported archive file): outside the quantifier
+				out.Emit(hx.Case{Kind: "K/C07/skip", Impl: first.verdict, Class: kind + " rejected by " + decs[0], Desc: kind})
+				continue
+			}
+			// the writers produce grammatical documents only
+			out.Emit(hx.Case{Kind: "K/C07/" + decs[0], Impl: first.verdict, Class: kind, NonTri: true,
+				Oracle: fmt.Sprintf("%s rejects a grammatical document: %s", decs[0], first.detail), Desc: fmt.Sprintf("%s base=%q: %q", kind, base, string(doc)),
+				In: []string{decs[0], fmt.Sprintf("%x", doc), "base=" + base}})
 			continue
 		}
 		ref := zooQuadsQ(first.quads)
